@@ -10,7 +10,8 @@ import (
 // length, string/bytes length, tag count, tag size, nullable-struct marker).
 type Mark struct {
 	Off, Len int
-	What     string
+	What     string // arraylen | strlen | byteslen | varintlen | tagcount | tagsize | structmarker
+	Form     string // i8 | i16 | i32 | uvarint | varint
 }
 
 // Enc is the reference encoder: Kafka protocol rules applied to a value tree.
@@ -20,8 +21,8 @@ type Enc struct {
 	Err   error
 }
 
-func (e *Enc) mark(n int, what string) {
-	e.Marks = append(e.Marks, Mark{len(e.B) - n, n, what})
+func (e *Enc) mark(n int, what, form string) {
+	e.Marks = append(e.Marks, Mark{len(e.B) - n, n, what, form})
 }
 
 func (e *Enc) fail(format string, a ...any) {
@@ -66,6 +67,10 @@ func uvarintLen(v uint32) int {
 	}
 	return n
 }
+
+// AppendUvarint / AppendVarint expose the reference integer encoders.
+func AppendUvarint(b []byte, v uint32) []byte { e := &Enc{B: b}; e.uvarint(v); return e.B }
+func AppendVarint(b []byte, v int32) []byte   { e := &Enc{B: b}; e.varint(v); return e.B }
 
 // Encode returns the wire form of a struct value at version.
 func Encode(s *Struct, v *SVal, version int) (*Enc, error) {
@@ -127,14 +132,14 @@ func (e *Enc) structBody(s *Struct, v *SVal, version int) {
 			e.fail("%s: unknown tag %d collides with a defined tag", s.Name, tags[i].key)
 		}
 	}
-	e.mark(e.uvarint(uint32(len(tags))), "tagcount")
+	e.mark(e.uvarint(uint32(len(tags))), "tagcount", "uvarint")
 	for _, t := range tags {
 		e.uvarint(t.key)
-		e.mark(e.uvarint(uint32(len(t.body))), "tagsize")
+		e.mark(e.uvarint(uint32(len(t.body))), "tagsize", "uvarint")
 		base := len(e.B)
 		e.B = append(e.B, t.body...)
 		for _, m := range t.mk {
-			e.Marks = append(e.Marks, Mark{base + m.Off, m.Len, m.What})
+			e.Marks = append(e.Marks, Mark{base + m.Off, m.Len, m.What, m.Form})
 		}
 	}
 }
@@ -180,9 +185,9 @@ func (e *Enc) length(n int, null, flex bool, width int, what string) {
 	switch {
 	case flex:
 		if null {
-			e.mark(e.uvarint(0), what)
+			e.mark(e.uvarint(0), what, "uvarint")
 		} else {
-			e.mark(e.uvarint(uint32(n)+1), what)
+			e.mark(e.uvarint(uint32(n)+1), what, "uvarint")
 		}
 	case width == 2:
 		if null {
@@ -193,14 +198,14 @@ func (e *Enc) length(n int, null, flex bool, width int, what string) {
 			}
 			e.u16(uint16(n))
 		}
-		e.mark(2, what)
+		e.mark(2, what, "i16")
 	default:
 		if null {
 			e.u32(0xffffffff)
 		} else {
 			e.u32(uint32(n))
 		}
-		e.mark(4, what)
+		e.mark(4, what, "i32")
 	}
 }
 
@@ -254,14 +259,14 @@ func (e *Enc) value(t *Type, v any, version int, flex bool) {
 		if s.Null {
 			e.fail("varint-string cannot be null")
 		}
-		e.mark(e.varint(int32(len(s.S))), "varintlen")
+		e.mark(e.varint(int32(len(s.S))), "varintlen", "varint")
 		e.B = append(e.B, s.S...)
 	case KVarintBytes:
 		b := v.(Byt)
 		if b.Null {
-			e.mark(e.varint(-1), "varintlen")
+			e.mark(e.varint(-1), "varintlen", "varint")
 		} else {
-			e.mark(e.varint(int32(len(b.B))), "varintlen")
+			e.mark(e.varint(int32(len(b.B))), "varintlen", "varint")
 			e.B = append(e.B, b.B...)
 		}
 	case KRaw:
@@ -273,7 +278,7 @@ func (e *Enc) value(t *Type, v any, version int, flex bool) {
 			n = 0
 		}
 		if t.VarintLen {
-			e.mark(e.varint(int32(n)), "arraylen")
+			e.mark(e.varint(int32(n)), "arraylen", "varint")
 		} else {
 			e.length(n, a.Null && t.NullableAt(version), flex, 4, "arraylen")
 		}
@@ -286,11 +291,11 @@ func (e *Enc) value(t *Type, v any, version int, flex bool) {
 			// Nullable structs are prefixed by an int8: -1 null, 1 present.
 			if sv.Null {
 				e.u8(0xff)
-				e.mark(1, "structmarker")
+				e.mark(1, "structmarker", "i8")
 				return
 			}
 			e.u8(1)
-			e.mark(1, "structmarker")
+			e.mark(1, "structmarker", "i8")
 		} else if sv.Null {
 			e.fail("%s: null for a non-nullable struct", t.Struct.Name)
 			return
